@@ -83,6 +83,8 @@ type FnTrans struct {
 	modByComp  map[string][]modTarget
 	curInstr   int
 	curCall    *ssa.CallCommon
+	binds      map[string]Val
+	pendingBind string
 	unmodelled map[ssa.Value]bool
 	atOrd      map[string]int
 	atUsed     map[int]bool
@@ -547,6 +549,7 @@ func (tr *FnTrans) run() {
 	tr.ranges = map[ssa.Value]*rangeState{}
 	tr.callOrd = map[string]int{}
 	tr.atOrd = map[string]int{}
+	tr.binds = map[string]Val{}
 	tr.atUsed = map[int]bool{}
 	tr.selStates = map[ssa.Value][]Val{}
 	tr.analyze()
@@ -661,6 +664,9 @@ func (tr *FnTrans) run() {
 func (tr *FnTrans) specCtx(heap, old *Heap, extra map[string]Val) *evalCtx {
 	env := map[string]Val{}
 	for k, v := range tr.paramEnv {
+		env[k] = v
+	}
+	for k, v := range tr.binds {
 		env[k] = v
 	}
 	for k, v := range extra {
@@ -1118,8 +1124,15 @@ func (tr *FnTrans) atCall(simple string) {
 			continue
 		}
 		tr.atUsed[k] = true
+		if ai.What == "bind" {
+			// name the call: <name> is true iff this call is executed; ghost
+			// results of the callee become <name>_<result>
+			tr.binds[ai.Text] = Val{K: KBool, T: tr.curReach, Typ: types.Typ[types.Bool]}
+			tr.pendingBind = ai.Text
+			continue
+		}
 		if ai.What != "assert" {
-			panic(vcErrorf("at %s: only assert is supported", ai.Anchor))
+			panic(vcErrorf("at %s: only assert and bind are supported", ai.Anchor))
 		}
 		ec := tr.specCtx(tr.cur, tr.entryHeap, nil)
 		at := tr.curBlock
@@ -1177,6 +1190,49 @@ func (tr *FnTrans) exit() {
 		for i, r := range tr.fc.Results {
 			env[r.Name] = results[i]
 		}
+	}
+	// ghost results: defined pointwise by the ghostdef clauses
+	for _, gd := range tr.fc.GhostDefs {
+		ix, ok := gd.Target.(*EIndex)
+		var gname string
+		var qname string
+		if ok {
+			if id, ok2 := ix.X.(*EIdent); ok2 {
+				gname = id.Name
+			}
+			if id, ok2 := ix.I.(*EIdent); ok2 {
+				qname = id.Name
+			}
+		} else if id, ok2 := gd.Target.(*EIdent); ok2 {
+			gname = id.Name
+		}
+		var decl *Param
+		for i := range tr.fc.GhostResults {
+			if tr.fc.GhostResults[i].Name == gname {
+				decl = &tr.fc.GhostResults[i]
+			}
+		}
+		if decl == nil {
+			panic(vcErrorf("ghostdef: %s is not a declared ghost result", gname))
+		}
+		srt := ghostSort(decl.Type)
+		g := vc.fresh("gres$"+gname, srt)
+		dec := tr.specCtx(fin, tr.entryHeap, env)
+		if qname == "" {
+			v := dec.eval(gd.E)
+			vc.fact(sEq(g, v.T), "")
+		} else {
+			ks, es := splitArrSort(srt)
+			qv := Val{K: sortKind(ks), T: qsym("gq$" + qname), Sort: ks}
+			if qv.K == KStr {
+				qv.Typ = types.Typ[types.String]
+			}
+			dec.env[qname] = qv
+			v := dec.eval(gd.E)
+			_ = es
+			vc.fact(fmt.Sprintf("(forall ((%s %s)) (! (= (select %s %s) %s) :pattern ((select %s %s))))", qv.T, ks, g, qv.T, v.T, g, qv.T), "")
+		}
+		env[gname] = Val{K: sortKind(srt), T: g, Sort: srt}
 	}
 	ec := tr.specCtx(fin, tr.entryHeap, env)
 	// ghost updates performed by the function at its exit (the only way a
